@@ -188,3 +188,6 @@ func (x *Exec) FakeSlice(n *Term) *SliceV {
 	o := x.newObj("fakeslice", nil, &ArrayV{E: []Val{x.C.Const(8, 0)}})
 	return &SliceV{Obj: o, Off: x.i64(0), Len: n, Cap: n}
 }
+
+// Assume adds an assumption from a driver-side stub (same effect as vp.Assume in a harness).
+func (x *Exec) Assume(t *Term) { x.H.Assumes = append(x.H.Assumes, t) }
